@@ -378,7 +378,10 @@ def run(ctx):
     _report(ctx, traces, rej)
     bad = {x.idx for x in rej}
     good = [slim[i] for i in range(len(slim)) if i not in bad and any(e["e"] == "respond" and e["dec"] == "creds" and "T" in e["chk"] for e in slim[i]["ev"])]
-    ctx.selftest_rejects("DigestTrace", good[::max(1, len(good) // 80)], mutate, n=24)
+    if good or not ctx.violations:
+        ctx.selftest_rejects("DigestTrace", good[::max(1, len(good) // 80)], mutate, n=24)
+    else:
+        ctx.log("selftest skipped: no accepted run to corrupt (violations reported above)")
 
 
 def replay(ctx, obj):
